@@ -147,9 +147,28 @@ def step(s, op):
     raise ValueError(k)
 
 
-def run(ops):
+def reopen(s, counter):
+    """FsSpec.Reopen: every name bound to an empty content becomes its own content."""
+    for n in ('iso', 'jol', 'udf'):
+        shared = {}
+        for p, e in s.ns[n].items():
+            if e['kind'] == 'file' and e.get('empty') and e['blob'] not in (-1, 0):
+                if n == 'udf' and e['blob'] in shared:      # names sharing a UDF File Entry stay linked
+                    e['blob'] = shared[e['blob']]
+                    continue
+                counter[0] -= 1
+                shared[e['blob']] = counter[0]
+                e['blob'] = counter[0]
+
+
+def run(ops, reopen_points=()):
     s = Fs()
-    outs = [step(s, op) for op in ops]
+    outs = []
+    counter = [-1000]
+    for i, op in enumerate(ops):
+        if i in reopen_points:
+            reopen(s, counter)
+        outs.append(step(s, op))
     return s, outs
 
 
